@@ -32,13 +32,14 @@ pub fn run(ctx: &Ctx) -> Outcome {
     };
     let ci_texts = gen::texts(&["s", "ſ", "k", "\u{212a}", "ß", "S"], 3);
     let n_ci = ci_patterns.len();
-    let cfg = SweepCfg { prop: "C09", backtrack_limit: Some(20_000), step_cap: Some(3_000_000), shadow: true };
+    let texts_up: Vec<String> = { let mut v: Vec<String> = texts.iter().map(|t| t.to_uppercase()).collect(); v.sort(); v.dedup(); v };
+    let cfg = SweepCfg { prop: "C09", backtrack_limit: Some(20_000), step_cap: Some(3_000_000), shadow: true, casei_every: 3 };
     let first_ci = patterns.len();
     patterns.extend(ci_patterns);
     let acc = sweep(&cfg, &patterns, |c: &Case<'_>, acc| {
         let re = c.re;
         let mut any = false;
-        for t in if c.index >= first_ci { &ci_texts } else { &texts } {
+        for t in if c.index >= first_ci { &ci_texts } else if c.casei { &texts_up } else { &texts } {
             acc.evals += 1;
             let mut bad = |acc: &mut Acc, api: &str, from: usize, want: String, got: String| {
                 acc.violate(Violation::new("C09", "coherence", c.pattern, t, from, api, want, got));
